@@ -234,6 +234,8 @@ func checkC06(p *Prog, r *Report) {
 	})
 	c06Rebuild(p, r)
 	c06FullDiff(p, r)
+	r.Rule("R12", "RemoveEntityByAddress drops exactly the entity it hands back to the cascade: the rebuild of the peer's entity list keeps an entry ⇔ it is not the entity found for the address (an entry dropped on the side — a sub-entity, a prefix match — never gets its subscriptions, bindings and caches cleaned)")
+	applyRetain(p, r, "R12", "spine", "DeviceRemote", "RemoveEntityByAddress", retainSpec{Field: F("DeviceRemote.entities"), Required: map[string]string{"entity": "=$"}})
 	r.Rule("R8", "a list field whose slice header a getter hands out (callers iterate it without the lock) is never modified in place: no element store, no copy into it, no in-place library routine (slices.DeleteFunc, sort.Slice, …); removal builds a new slice")
 	escapedListsImmutable(p, BuildLockset(p, "spine", "model"), r, "R8", map[string]bool{"DeviceRemote": true, "EntityRemote": true})
 	r.Rule("R7", "every hand-written element-wise comparison of two slices of one type compares their lengths for equality: entity addresses are never matched by prefix (shared lint, C20-R6)")
@@ -314,6 +316,7 @@ func c06Rebuild(p *Prog, r *Report) {
 		})
 	}
 	r.Floor("R5", "AddFeature calls on remote entities", n, 1)
+	c06Reannounce(p, r, eri)
 }
 
 func valueIs(v ssa.Value, c *ssa.Call) bool {
@@ -689,4 +692,89 @@ func c06FullDiff(p *Prog, r *Report) {
 		}
 	}
 	r.Floor("R11", "loops synthesising removed entries", n, 1)
+}
+
+// c06Reannounce: what an announcement says about an entity replaces what was known about it, every time.
+//   - R13: where the announced description of an entity is stored, the entity's features are rebuilt too — the wipe
+//     (RemoveAllFeatures) is reached under the same conditions as SetDescription on the same entity. A rebuild skipped
+//     because "the feature list looks the same" keeps stale operations and descriptions.
+//   - R14: the device part of the entity's address is filled in (UpdateDeviceAddress) for every announced entity whose
+//     address lacks it, not only for entities created by this announcement: the entity known before discovery
+//     (entity [0]) is exactly the one that lacks it.
+func c06Reannounce(p *Prog, r *Report, eri *types.Interface) {
+	r.Rule("R13", "a re-announced entity is rebuilt whenever its announced description is stored: RemoveAllFeatures is reached under exactly the conditions under which SetDescription of the same entity is")
+	r.Rule("R14", "the device address learned from an announcement is given to every announced entity that lacks it: UpdateDeviceAddress is not confined to the branch that creates a new entity")
+	nW, nU := 0, 0
+	for _, fn0 := range p.ScopeRoots("spine") {
+		fn := fn0
+		p.InScope(fn, func() {
+			var wipes, descs, upds []*ssa.Call
+			forEachCall(fn, func(site ssa.CallInstruction) {
+				c, ok := site.(*ssa.Call)
+				if !ok {
+					return
+				}
+				switch {
+				case calleeIsIfaceMethod(&c.Call, eri, "RemoveAllFeatures"):
+					wipes = append(wipes, c)
+				case calleeIsIfaceMethod(&c.Call, eri, "SetDescription"):
+					descs = append(descs, c)
+				case calleeIsIfaceMethod(&c.Call, eri, "UpdateDeviceAddress"):
+					upds = append(upds, c)
+				}
+			})
+			for i, w := range wipes {
+				var sd *ssa.Call
+				for _, d := range descs {
+					if substParam(callRecv(&d.Call)) == substParam(callRecv(&w.Call)) {
+						sd = d
+					}
+				}
+				if sd == nil {
+					continue
+				}
+				nW++
+				var extra []string
+				for _, g := range Guards(w.Block()) {
+					shared := false
+					for _, g2 := range Guards(sd.Block()) {
+						if g2.Cond == g.Cond && g2.Val == g.Val {
+							shared = true
+						}
+					}
+					if !shared {
+						extra = append(extra, fmt.Sprintf("%s=%v at %s", Path(g.Cond), g.Val, p.InstrPos(g.If)))
+					}
+				}
+				// ... also when the skip is written as a disjunction (no single dominating condition): no path from the
+				// description store to the next entry of the loop avoids the wipe
+				if sd.Block() != w.Block() && sd.Parent() == w.Parent() {
+					if hdr := loopHeaderOf(sd.Block()); hdr != nil && reachesAvoiding(sd.Block(), hdr, w.Block()) {
+						extra = append(extra, "a path from storing the description to the next announced entity bypasses the wipe")
+					}
+				}
+				r.Check("R13", fmt.Sprintf("%s|rebuild#%d", FnName(fn), i+1), len(extra) == 0, p.InstrPos(w), fmt.Sprintf("conditions on the wipe that are not conditions on storing the description: %v", extra))
+			}
+			for i, u := range upds {
+				nU++
+				// a guard "the look-up of the entity missed" (taken edge: nil) confines the update to new entities
+				var bad []string
+				for _, g := range Guards(u.Block()) {
+					x, trueNil, isNil := nilTest(g.Cond)
+					if !isNil || trueNil != g.Val {
+						continue
+					}
+					if lc, isCall := unwrapIface(x).(*ssa.Call); isCall && implementsIface(lc.Type(), eri) {
+						bad = append(bad, fmt.Sprintf("%s == nil at %s", Path(x), p.InstrPos(g.If)))
+					}
+					if ph, isPhi := unwrapIface(x).(*ssa.Phi); isPhi && implementsIface(ph.Type(), eri) {
+						bad = append(bad, fmt.Sprintf("%s == nil at %s", Path(x), p.InstrPos(g.If)))
+					}
+				}
+				r.Check("R14", fmt.Sprintf("%s|device-address#%d", FnName(fn), i+1), len(bad) == 0, p.InstrPos(u), fmt.Sprintf("the update is reached only when the entity was not known before: %v", bad))
+			}
+		})
+	}
+	r.Floor("R13", "feature rebuilds next to a stored description", nW, 1)
+	r.Floor("R14", "device address updates", nU, 1)
 }
